@@ -94,8 +94,10 @@ class Group:
             # the accumulators belong to this evaluation only: a later
             # step chained onto this scope (e.g., in a Pipe evaluated
             # by an enclosing Group) goes back to the enclosing ones
-            del scope.maps[0][ACC_TREE]
-            del scope.maps[0][CUR_AGG]
+            outer = scope.parents
+            if ACC_TREE in outer:
+                scope[ACC_TREE] = outer[ACC_TREE]
+                scope[CUR_AGG] = outer[CUR_AGG]
 
     def __repr__(self):
         cn = self.__class__.__name__
